@@ -21,10 +21,10 @@ class C09(CheckDef):
     programs = {
         'quick': [('0;0;0/0;0;0/0;0;0', {}, 1200, 'random'), ('0;0;1/0;1/0;0;0', {}, 1200, 'random'),
                   ('0,1;0,1;0,1/0,1;0,1;0,1/0,1;0,1;0,1/0,1;0,1;0,1', {}, 1500, 'random'), ('0;0;0;0/0;0;0;0', {}, 800, 'pct'),
-                  ('1/0;0/0;0', {}, 600, 'random')],
+                  ('1/0;0/0;0', {}, 600, 'random'), ('0;0/0;0', {}, 3000, 'pb2'), ('0;1/0;0/1', {}, 3000, 'pb1')],
         'thorough': [('0;0;0/0;0;0/0;0;0', {}, 20000, 'random'), ('0;0;1/0;1/0;0;0', {}, 20000, 'random'),
                      ('0,1;0,1;0,1/0,1;0,1;0,1/0,1;0,1;0,1/0,1;0,1;0,1', {}, 30000, 'random'), ('0;0;0;0/0;0;0;0', {}, 10000, 'pct'),
-                     ('1/0;0/0;0', {}, 10000, 'random'), ('0;0;0;0;0/0;0;0;0;0/0;0;1/0;0;0;1/0;1', {}, 20000, 'random'),
+                     ('1/0;0/0;0', {}, 10000, 'random'), ('0;0/0;0', {}, 300000, 'pb3'), ('0;1/0;0/1', {}, 300000, 'pb2'), ('0;0;0;0;0/0;0;0;0;0/0;0;1/0;0;0;1/0;1', {}, 20000, 'random'),
                      ('0,1;0,1;0,1;0,1/0,1;0,1;0,1;0,1/0,1;0,1;0,1;0,1', {}, 20000, 'pct')],
     }
     assumptions = ['bounded: TLC results are for the thread/generation counts named in the configs',
